@@ -1,7 +1,7 @@
 (* C13 — tagged unions dispatch on the tag alone.
    Only statements closed by `exact` / short glue, and Print Assumptions.
    Model: coq/model/TagUnion.v; lemmas: coq/proofs/TagUnionProofs.v. *)
-From DW Require Import PyStr TagUnion TagUnionProofs.
+From DW Require Import PyStr TagUnion TagUnionProofs TagUnionCont TagUnionContProofs.
 From Coq Require Import Permutation.
 
 (* Default engine.  For every family (any number of members, ANY field sets — identical, overlapping or
@@ -214,3 +214,146 @@ Theorem C13_member_auto_tag_refuted :
   load_union_v0 c false [AData f62_m] (dump_member c true f62_m vals) = Ok (LInst f62_m vals []).
 Proof. cbn zeta. repeat split; vm_compute; reflexivity. Qed.
 Print Assumptions C13_member_auto_tag_refuted.
+
+(* ================= container-typed Union members (list[s], dict[str, s], tuple) beside tagged dataclasses =============
+   Model: coq/model/TagUnionCont.v; lemmas: coq/proofs/TagUnionContProofs.v.  `cargs` is ANY argument list: any number
+   of dataclass members, scalar members, None and container members in any order; `plain cargs` are the non-container
+   members.  `coerce` / `tuple_v1` are stdlib-level oracles (element conversions of values that are not of the declared
+   element type; the v1 tuple loader): every theorem holds for ALL of them. *)
+
+(* v1: the tag branch comes before every type check, so the container members NEVER capture a dumped member instance —
+   for all families, all container members, all argument orders, all positions. *)
+Theorem C13_cont_dispatch_v1 :
+  forall coerce tuple_v1 c built cargs,
+  tags_injective c (plain cargs) -> names_injective c (plain cargs) ->
+  forall p v, shaped c built (inst_leaf_v1 c built (plain cargs)) p v ->
+              load_pos (load_union_c_v1 coerce tuple_v1 c cargs) p (dump_lv c built v) = Ok v.
+Proof. exact cont_dispatch_v1. Qed.
+Print Assumptions C13_cont_dispatch_v1.
+
+(* default engine, SAFE REGION = no member whose base type is dict (list / tuple members allowed, any number, anywhere):
+   a dumped member instance (and a scalar) loads back as itself.  Partial: see the refutation below (finding F96). *)
+Theorem C13_cont_dispatch_v0_partial :
+  forall coerce c pre built cargs,
+  has_dict cargs = false -> tags_injective c (plain cargs) ->
+  forall p v, shaped c built (leaf_v0 c pre built (plain cargs)) p v ->
+              load_pos (load_union_c_v0 coerce c pre cargs) p (dump_lv c built v) = Ok v.
+Proof. exact cont_dispatch_v0. Qed.
+Print Assumptions C13_cont_dispatch_v0_partial.
+
+(* non-vacuity: the family of ex_args with list[int], dict-free, tuple and list[str] members mixed in *)
+Definition ex_cargs : list carg :=
+  [CCont (CList SInt); CArg (AData (ex_m 0 "K0" None)); CArg (AScalar SInt); CCont CTuple;
+   CArg (AData (ex_m 1 "K1" (Some (S "t'1")))); CArg ANone; CArg (AData (ex_m 2 "K2" None)); CCont (CList SStr); CArg (AScalar SStr)].
+Example ex_cargs_plain : plain ex_cargs = ex_args /\ has_dict ex_cargs = false.
+Proof. split; reflexivity. Qed.
+Example C13_cont_dispatch_v0_ex :
+  load_pos (load_union_c_v0 no_coerce ex_conf false ex_cargs) (PList (PDict PHere)) (dump_lv ex_conf false ex_val) = Ok ex_val.
+Proof. exact (C13_cont_dispatch_v0_partial no_coerce ex_conf false false ex_cargs eq_refl ex_tags_injective _ _ ex_shaped). Qed.
+
+(* F96 (default engine): the region hypothesis is necessary, and ORDER does not matter: with a dict-typed member anywhere
+   among the arguments NO dict — tagged with a valid tag or not — is ever loaded as a dataclass member. *)
+Theorem C13_cont_dict_member_captures_v0 :
+  forall coerce c pre cargs items,
+  has_dict cargs = true -> not_inst (load_union_c_v0 coerce c pre cargs (JDict items)).
+Proof. exact dict_member_captures_v0. Qed.
+Print Assumptions C13_cont_dict_member_captures_v0.
+
+Definition f96_m : member :=
+  {| m_cid := 0; m_name := S "K0"; m_tag := None; m_auto := false; m_fields := [S "a"]; m_defaults := [];
+     m_catchall := false; m_raise := false |}.
+Theorem C13_cont_dict_member_refuted :
+  let c := {| u_tag_key := S "__tag__"; u_auto := true |} in
+  let vals := [(S "a", JInt 1)] in
+  (* dataclass first, dict[str, int] last: the dump of K0(a=1) is taken by the dict member, whose int() fails on the tag *)
+  load_union_c_v0 no_coerce c true [CArg (AData f96_m); CCont (CDict SInt)] (dump_member c false f96_m vals) = Err EElem /\
+  (* dict[str, str]: loaded as a plain dict *)
+  load_union_c_v0 (fun _ _ => Some (JStr (S "1"))) c true [CArg (AData f96_m); CCont (CDict SStr)] (dump_member c false f96_m vals)
+    = Ok (LScalar (JDict [(S "a", JStr (S "1")); (S "__tag__", JStr (S "K0"))])) /\
+  (* without the dict member, and in v1 with it: the same document loads as K0 *)
+  load_union_c_v0 no_coerce c true [CArg (AData f96_m); CCont (CList SInt)] (dump_member c false f96_m vals) = Ok (LInst f96_m vals []) /\
+  load_union_c_v1 no_coerce no_tuple c [CCont (CDict SInt); CArg (AData f96_m)] (dump_member c false f96_m vals) = Ok (LInst f96_m vals []).
+Proof. cbn zeta. repeat split; vm_compute; reflexivity. Qed.
+Print Assumptions C13_cont_dict_member_refuted.
+
+(* A list / dict VALUE of a container member (elements of the declared type) is never mistaken for a dataclass and is
+   not rejected: it goes to the first container member of its kind.  Default engine: unconditionally (for a dict: even
+   when it carries the tag key — the other face of F96).  v1: a list value provided no tuple member stands among the
+   arguments; an untagged dict value provided there is no list / tuple member (v1's list loader iterates a dict's keys). *)
+Theorem C13_cont_values_v0 :
+  forall coerce c pre cargs s,
+  (forall l, first_list cargs = Some s -> Forall (exact s) l ->
+             load_union_c_v0 coerce c pre cargs (JList l) = Ok (LScalar (JList l))) /\
+  (forall items, first_dict cargs = Some s -> Forall (fun kv => exact s (snd kv)) items ->
+             load_union_c_v0 coerce c pre cargs (JDict items) = Ok (LScalar (JDict items))).
+Proof. intros. split; intros; [now apply list_value_v0 with (s := s)|now apply dict_value_v0 with (s := s)]. Qed.
+Print Assumptions C13_cont_values_v0.
+
+Theorem C13_cont_values_v1 :
+  forall coerce tuple_v1 c cargs s, has_tuple cargs = false ->
+  (forall l, first_list cargs = Some s -> Forall (exact s) l ->
+             load_union_c_v1 coerce tuple_v1 c cargs (JList l) = Ok (LScalar (JList l))) /\
+  (forall items, has_list cargs = false -> first_dict cargs = Some s -> Forall (fun kv => exact s (snd kv)) items ->
+             lookup (u_tag_key c) items = None ->
+             load_union_c_v1 coerce tuple_v1 c cargs (JDict items) = Ok (LScalar (JDict items))).
+Proof. intros. split; intros; [now apply list_value_v1 with (s := s)|now apply dict_value_v1 with (s := s)]. Qed.
+Print Assumptions C13_cont_values_v1.
+Example C13_cont_values_ex :
+  first_list ex_cargs = Some SInt /\ Forall (exact SInt) [JInt 1; JInt 2] /\
+  (* the v1 conditions are necessary: a list[str] member before the dict member takes a dict's keys *)
+  load_union_c_v1 no_coerce no_tuple ex_conf [CCont (CList SStr); CCont (CDict SInt)] (JDict [(S "k", JInt 1)])
+    = Ok (LScalar (JList [JStr (S "k")])).
+Proof. split; [reflexivity|]. split; [repeat constructor|vm_compute; reflexivity]. Qed.
+
+(* Order of the arguments, container members included.  Default engine: every dict input in the safe region; v1: every
+   dict that carries the tag key, whatever container members there are. *)
+Theorem C13_cont_order_irrelevant_v0 :
+  forall coerce c pre cargs cargs' items,
+  Permutation cargs cargs' -> tags_injective c (plain cargs) -> has_dict cargs = false ->
+  same_res (load_union_c_v0 coerce c pre cargs (JDict items)) (load_union_c_v0 coerce c pre cargs' (JDict items)).
+Proof. exact cont_order_v0. Qed.
+Print Assumptions C13_cont_order_irrelevant_v0.
+
+Theorem C13_cont_order_irrelevant_v1 :
+  forall coerce tuple_v1 c cargs cargs' items tagv,
+  Permutation cargs cargs' -> tags_injective c (plain cargs) -> names_injective c (plain cargs) ->
+  lookup (u_tag_key c) items = Some tagv -> has_tagged c (plain cargs) = true ->
+  same_res (load_union_c_v1 coerce tuple_v1 c cargs (JDict items)) (load_union_c_v1 coerce tuple_v1 c cargs' (JDict items)).
+Proof. exact cont_order_v1. Qed.
+Print Assumptions C13_cont_order_irrelevant_v1.
+Example C13_cont_order_ex : Permutation ex_cargs (rev ex_cargs) /\ has_tagged ex_conf (plain ex_cargs) = true.
+Proof. split; [apply Permutation_rev|reflexivity]. Qed.
+
+(* ================= documents that omit fields (members with defaulted fields) ==================================
+   The tag ALONE selects the class: a document that carries K's tag and ANY subset of K's fields is handed to K, and the
+   outcome is K's constructor rule (`ctor`: given value, else default, else MissingFields) — never another member. *)
+Theorem C13_partial_fields :
+  forall coerce c pre args m given t,
+  tags_injective c args -> names_injective c args -> In (AData m) args -> eff_tag c m = Some t ->
+  partial_doc m given -> is_field (u_tag_key c) m = false ->
+  (tag_key_tolerated_v0 c pre m ->
+   load_union_v0 c pre args (JDict (given ++ [(u_tag_key c, JStr t)])) = ctor m given) /\
+  load_union_v1 coerce c args (JDict (given ++ [(u_tag_key c, JStr t)])) = ctor m given.
+Proof.
+  intros coerce c pre args m given t Inj NInj Hin Ht Hp Hk. split.
+  - intros Htol. now apply partial_dispatch_v0.
+  - now apply partial_dispatch_v1.
+Qed.
+Print Assumptions C13_partial_fields.
+
+(* every omitted field has a default: K is constructed, with exactly K's fields *)
+Theorem C13_defaults_filled :
+  forall m given, covered m given -> exists vals, ctor m given = Ok (LInst m vals []) /\ map fst vals = m_fields m.
+Proof. exact ctor_covered. Qed.
+Print Assumptions C13_defaults_filled.
+Example C13_defaults_filled_ex :
+  let m := ex_m 1 "K1" (Some (S "t'1")) in
+  partial_doc m [(S "a", JInt 7)] /\ covered m [(S "a", JInt 7)] /\
+  load_union_v0 ex_conf false ex_args (JDict ([(S "a", JInt 7)] ++ [(u_tag_key ex_conf, JStr (S "t'1"))]))
+    = Ok (LInst m [(S "a", JInt 7); (S "b", JStr (S "dflt"))] []).
+Proof.
+  cbn zeta. split; [|split].
+  - split; [intros kv [<-|[]]; reflexivity|repeat constructor; cbn; tauto].
+  - intros f [<-|[<-|[]]]; [left|right]; vm_compute; discriminate.
+  - vm_compute. reflexivity.
+Qed.
